@@ -141,7 +141,7 @@ func Shard() (int, int) {
 }
 
 func hashOf(v any) (string, []byte) {
-	b, err := json.Marshal(v)
+	b, err := MarshalCase(v)
 	if err != nil {
 		b = []byte(fmt.Sprintf("%#v", v))
 	}
@@ -225,7 +225,8 @@ func journal(sub string, c any) {
 	if path == "" {
 		return
 	}
-	b, _ := json.Marshal(map[string]any{"property": S.ID, "sub": sub, "case": c})
+	cb, _ := MarshalCase(c)
+	b, _ := json.Marshal(map[string]any{"property": S.ID, "sub": sub, "case": json.RawMessage(cb)})
 	_ = os.WriteFile(path, b, 0o644)
 }
 
@@ -351,7 +352,7 @@ func Replay[C any](t *testing.T, subs map[string]func(C) Result) {
 			continue // belongs to another sub-check (case type)
 		}
 		var c C
-		if err := json.Unmarshal(rf.Case, &c); err != nil {
+		if err := UnmarshalCase(rf.Case, &c); err != nil {
 			t.Fatalf("replay %s: case does not decode: %v", f, err)
 		}
 		res := run(c)
